@@ -488,6 +488,37 @@ fn mode_probe(args: &Args) {
     }
 }
 
+
+/// propagation correspondence: every decision point of real solves against the fixpoint of
+/// Model/Propagation.lean (C17 / C12 / C01)
+fn mode_fix(args: &Args) {
+    let mut master = Rng::new(args.seed ^ 0xF1C5);
+    let mut cfg = cfg_from(args);
+    cfg.max_product = cfg.max_product.min(3000);
+    for i in 0..args.cases {
+        let case_seed = master.next();
+        if only_skip(args, i) {
+            continue;
+        }
+        let mut r = Rng(case_seed);
+        let single = r.chance(1, 2);
+        if single {
+            cfg.min_cons = 1;
+            cfg.max_cons = 1;
+        } else {
+            cfg.min_cons = 1;
+            cfg.max_cons = 4;
+        }
+        let m = gen_model(&mut r, &cfg);
+        let setup = Setup::random(&mut r);
+        let id = format!("{}-{}", args.seed, i);
+        run_case(&id, &format!("scen=fix seed={} {}", case_seed, setup.describe()), |out| {
+            kinds_meta(&m, out);
+            scen_fix(&m, &setup, 1, out)
+        });
+    }
+}
+
 /// C19: DRCP text and literal definitions
 fn mode_drcp(args: &Args) {
     let mut master = Rng::new(args.seed);
@@ -759,6 +790,7 @@ fn main() {
         "drcp" => mode_drcp(&args),
         "dimacs" => mode_dimacs(&args),
         "probe" => mode_probe(&args),
+        "fix" => mode_fix(&args),
         "proof" => mode_proof(&args),
         "configs" => mode_configs(&args),
         "interrupt" => mode_interrupt(&args),
